@@ -10,7 +10,7 @@ META = {
     "assumptions": [
         "theorems are about exact real arithmetic; IEEE rounding is outside every theorem (the model is run at binary64 only for the tie, tolerance 2^-30 scaled)",
         "hand-written model Model/Passive.v (this MuJoCo version has polynomial stiffness / damping: mjNPOLY = 2 higher-order coefficients, checked at compile time by the driver); the tie is differential testing on the cases of this run",
-        "kinematic quantities (tendon length, velocity and Jacobian rows, body Jacobians at the centre of mass, effective damping after mj_actuatorDamping) are inputs of the model taken from the implementation",
+        "kinematic quantities (tendon length, velocity and Jacobian rows, body Jacobians at the centre of mass) are inputs of the model taken from the implementation; the actuator-inherited damping is NOT an input: it is recomputed from the raw model arrays (dof/tendon damping, actuator damping, gear, transmission target) both in the Coq model and in the oracle",
         "atan2 of the float runs (ball-joint springs) comes from the unverified Lib/FloatFn.v (executable side only)",
     ],
 }
@@ -18,13 +18,13 @@ META["text"] = (
     "Proved in Coq over the reals, for all inputs, about the model Model/Passive.v of engine_passive.c: the spring force of a scalar joint or tendon, -x*polyForce(k, poly, x) with x the deflection from springref (polynomial stiffness k + p0 x + p1 x^2 as coded), "
     "is minus the derivative of the reported potential mju_polyPotential (C29_spring_is_gradient, Coquelicot is_derive, for the coded mjNPOLY = 2, closed forms in C29_poly_closed_form; the plain linear spring -k(q - q_ref) = -d/dq (1/2 k (q - q_ref)^2): C29_linear_spring_gradient; tendons w.r.t. the tendon length away from the two corners of the dead band: C29_tendon_spring_gradient); "
     "the tendon dead band gives zero displacement inside [lower, upper] (C29_tendon_deadband); damping never adds energy: v * damperForce(b, poly, v) <= 0 for non-negative coefficients, for joints and through the tendon Jacobian "
-    "(C29_damping_dissipates, C29_tendon_damping_dissipates); at zero deflection and zero velocity spring and damper forces vanish and a whole system of scalar joints, dof dampers and tendons at rest has zero qfrc_spring and qfrc_damper, "
+    "(C29_damping_dissipates, C29_tendon_damping_dissipates); the actuator-inherited damping of mj_actuatorDamping is modelled (effective coefficients = own + coefficient*gear^2 for every actuator driving the joint / tendon) and, for non-negative coefficients, stays non-negative for gears of any sign and magnitude, so the damper still never adds energy (C29_actuator_damping_closed_form, C29_actuator_damping_dissipates); at zero deflection and zero velocity spring and damper forces vanish and a whole system of scalar joints, dof dampers and tendons at rest has zero qfrc_spring and qfrc_damper, "
     "hence zero qfrc_passive without gravity compensation (C29_rest_scalar, C29_rest_system); the gravity-compensation force of a body is -g*m*gravity applied at the centre of mass and its generalized force cancels exactly the fraction g of the generalized gravity force of that body "
     "(C29_gravcomp_force, C29_gravcomp_cancels). Partial / not proved: ball and free joint springs are in the model and tied, but 'force = -gradient' for them is checked only numerically (finite differences of the implementation's potential); "
     "flex, fluid, contact and adhesion passive forces are outside the model. "
     "Tied on every run: mju_polyForce / mju_polyPotential on random inputs, and qfrc_spring, qfrc_damper, qfrc_gravcomp, qfrc_passive and the spring potential of mj_energyPos on mjgen models extended with polynomial coefficients, spring references, tendon dead bands, "
-    "actuator-routed gravity compensation and the spring / damper disable flags, evaluated in the Coq model at binary64. "
-    "Oracle on implementation output (independent of the model): -qfrc_spring equals the centred finite difference of the spring potential along every dof (all joint types and tendons), scalar spring / damper / tendon laws recomputed from the state, "
+    "actuator-routed gravity compensation, groups of 1-3 damped actuators (linear and polynomial coefficients, armature) sharing a joint or tendon with gears of both signs and magnitudes != 1, and the spring / damper disable flags, evaluated in the Coq model at binary64. "
+    "Oracle on implementation output (independent of the model): -qfrc_spring equals the centred finite difference of the spring potential along every dof (all joint types and tendons), scalar spring / damper / tendon laws recomputed from the state with the damping coefficients own + sum coefficient*gear^2 recomputed from the raw model arrays, "
     "damping power <= 0, zero spring and damper force at rest (qpos = qpos_spring, qvel = 0, tendons inside their dead band), qfrc_gravcomp recomputed from masses and Jacobians, and with gravcomp = 1 on every body qfrc_gravcomp = qfrc_bias at zero velocity (gravity exactly cancelled).")
 META["note"] = ("Trusted: Coq kernel + the standard-library real-number axioms listed in trusted_base (Coquelicot); hand-written model; Lib/FloatFn.v (executable side); "
                 "correspondence harness (gcc, driver c29_passive.c, mjgen.h).")
@@ -64,10 +64,19 @@ def tup(xs):
 
 
 PRE = """
-Definition chkM (c : nat * bool * bool * list (@JointSpring float) * list (float * list float * float) * list (@Tendon float) *
+Definition AL := list (float * float * list float).
+Definition mkDof (t : float * list float * float * AL) : float * list float * float :=
+  match t with (b0, p0, v, acts) => let e := effDamping b0 p0 acts in (fst e, snd e, v) end.
+Definition mkT (t : float * list float * (float * list float * AL) * (float * float * float * float) * list float) : Tendon :=
+  match t with (k, sp, (b0, dp0, acts), (len, vel, lo, hi), J) =>
+    let e := effDamping b0 dp0 acts in mkTendon k sp (fst e) (snd e) len vel lo hi J end.
+Definition chkM (c : nat * bool * bool * list (@JointSpring float) * list (float * list float * float * AL) *
+                     list (float * list float * (float * list float * AL) * (float * float * float * float) * list float) *
                      (float * float * float) * list (float * float * list (float * float * float)) * bool * list bool *
                      (list float * list float * list float * list float * float)) : bool :=
-  match c with (nv, es, ed, joints, dofs, tendons, gravity, bodies, has_gc, actgc, (qS, qP, qG, qQ, eE)) =>
+  match c with (nv, es, ed, joints, dofs0, tendons0, gravity, bodies, has_gc, actgc, (qS, qP, qG, qQ, eE)) =>
+    let dofs := map mkDof dofs0 in
+    let tendons := map mkT tendons0 in
     let sd := springdamper nv es ed joints dofs tendons in
     let g := gravcomp nv gravity bodies in
     fclose_list TOL (fst sd) qS && fclose_list TOL (snd sd) qP && fclose_list TOL g qG &&
@@ -76,6 +85,10 @@ Definition chkM (c : nat * bool * bool * list (@JointSpring float) * list (float
 Definition chkP (c : float * list float * float * bool * float * float) : bool :=
   match c with (lin, poly, x, odd, f, pot) => fclose TOL (polyForce lin poly x odd) f && fclose TOL (polyPotential lin poly x odd) pot end.
 """.replace("TOL", TOL)
+
+
+def alist(acts):
+    return "[" + "; ".join("(%s, %s, %s)" % (ff(g), ff(d), F.flist(dp)) for g, d, dp in acts) + "]"
 
 
 def pforce(lin, poly, x, odd):
@@ -113,7 +126,7 @@ def run(ctx):
     pos = 0
     mcases, mmeta = [], []
     stats = dict(models=0, skipped=0, spring_joints=0, ball_free_springs=0, poly_springs=0, damped_dofs=0, tendons_active=0, deadband_inside=0, gravcomp_bodies=0,
-                 actgravcomp_dofs=0, rest_states=0, g1_states=0, spring_disabled=0, damper_disabled=0, fd_checks=0, law_checks=0)
+                 actgravcomp_dofs=0, dofs_with_actuator_damping=0, dofs_multi_actuator_damping=0, tendons_multi_actuator_damping=0, actuator_damping_gear_not_1=0, actuator_damping_gear_negative=0, rest_states=0, g1_states=0, spring_disabled=0, damper_disabled=0, fd_checks=0, law_checks=0)
     try:
         for r in req:
             head = lines[pos].split(); pos += 1
@@ -123,9 +136,9 @@ def run(ctx):
             if head[:2] != ["M", "OK"]:
                 ctx.broken.append(("correspondence", "generated model rejected", " ".join(head[:30]) + " request=%s" % (r,)))
                 continue
-            nv, nj, nt, nb = int(head[3]), int(head[5]), int(head[7]), int(head[9])
-            es, ed, gc_on, g1, rest = int(head[11]), int(head[13]), int(head[15]), int(head[17]), int(head[19])
-            gravity = [fl(x) for x in head[21:24]]
+            nv, nj, nt, nb, nact = int(head[3]), int(head[5]), int(head[7]), int(head[9]), int(head[11])
+            es, ed, gc_on, g1, rest = int(head[13]), int(head[15]), int(head[17]), int(head[19]), int(head[21])
+            gravity = [fl(x) for x in head[23:26]]
             joints = []
             for j in range(nj):
                 t = lines[pos].split(); pos += 1
@@ -135,16 +148,54 @@ def run(ctx):
                 if len(v) != 3 + 2 * n:
                     raise ValueError("joint line")
                 joints.append((jt, dof, v[0], v[1:3], v[3:3 + n], v[3 + n:]))
-            dofs = []
+            rawdofs = []
             for v in range(nv):
                 t = lines[pos].split(); pos += 1
-                dofs.append((fl(t[1]), [fl(t[2]), fl(t[3])], fl(t[4]), int(t[5])))
+                if t[0] != "D" or len(t) != 8:
+                    raise ValueError("dof line")
+                rawdofs.append((fl(t[1]), [fl(t[2]), fl(t[3])], fl(t[4]), int(t[5]), int(t[6])))
+            actu = []
+            for i in range(nact):
+                t = lines[pos].split(); pos += 1
+                if t[0] != "AC" or len(t) != 7:
+                    raise ValueError("actuator line")
+                actu.append((int(t[1]), int(t[2]), fl(t[3]), fl(t[4]), [fl(t[5]), fl(t[6])]))
+            # actuator-inherited damping, recomputed here from the raw model arrays (NOT taken from mj_actuatorDamping):
+            # a damper b on an actuator of gear g acts on its joint / tendon as b*g^2; mjTRN_JOINT = 0, JOINTINPARENT = 1, TENDON = 3
+            def inherited(kind, idx):
+                return [(g, dmp, dp) for (trn, tid, g, dmp, dp) in actu if tid == idx and ((trn in (0, 1)) if kind == "joint" else trn == 3)]
+
+            def effective(b0, p0, acts):
+                b, p = 0.0, list(p0)
+                for g, dmp, dp in acts:
+                    b += dmp * (g * g)
+                    p = [p[0] + dp[0] * (g * g), p[1] + dp[1] * (g * g)]
+                return b0 + b, p
+            dofs, dofacts = [], []
+            for b0, p0, vel, agc, jid in rawdofs:
+                acts_ = inherited("joint", jid)
+                be, pe = effective(b0, p0, acts_)
+                dofs.append((be, pe, vel, agc))
+                dofacts.append((b0, p0, acts_))
+                damped = [a_ for a_ in acts_ if a_[1] != 0 or any(a_[2])]
+                if damped:
+                    stats["dofs_with_actuator_damping"] += 1
+                    if len(damped) >= 2:
+                        stats["dofs_multi_actuator_damping"] += 1
+                    if any(abs(a_[0]) != 1 for a_ in damped):
+                        stats["actuator_damping_gear_not_1"] += 1
+                    if any(a_[0] < 0 for a_ in damped):
+                        stats["actuator_damping_gear_negative"] += 1
             tendons = []
             for i in range(nt):
                 t = [fl(x) for x in lines[pos].split()[1:]]; pos += 1
                 if len(t) != 10 + nv:
                     raise ValueError("tendon line")
-                tendons.append(dict(k=t[0], sp=t[1:3], b=t[3], dp=t[4:6], len=t[6], vel=t[7], lo=t[8], hi=t[9], J=t[10:]))
+                acts_ = inherited("tendon", i)
+                be, pe = effective(t[3], t[4:6], acts_)
+                if len([a_ for a_ in acts_ if a_[1] != 0 or any(a_[2])]) >= 2:
+                    stats["tendons_multi_actuator_damping"] += 1
+                tendons.append(dict(k=t[0], sp=t[1:3], b=be, dp=pe, b0=t[3], dp0=t[4:6], acts=acts_, len=t[6], vel=t[7], lo=t[8], hi=t[9], J=t[10:]))
             bodies = []
             for i in range(1, nb):
                 t = [fl(x) for x in lines[pos].split()[1:]]; pos += 1
@@ -175,8 +226,9 @@ def run(ctx):
                     jl.append("(JFree %d%%nat %s %s %s %s %s %s)" % (dof, ff(k), F.flist(poly), tup(q[:3]), tup(qs[:3]), tup(q[3:]), tup(qs[3:])))
             mcases.append("(%d%%nat, %s, %s, [%s], [%s], [%s], %s, [%s], %s, [%s], (%s, %s, %s, %s, %s))" % (
                 nv, bb(es), bb(ed), "; ".join(jl),
-                "; ".join("(%s, %s, %s)" % (ff(b), F.flist(p), ff(v)) for b, p, v, _ in dofs),
-                "; ".join("(mkTendon %s %s %s %s %s %s %s %s %s)" % (ff(t["k"]), F.flist(t["sp"]), ff(t["b"]), F.flist(t["dp"]), ff(t["len"]), ff(t["vel"]), ff(t["lo"]), ff(t["hi"]), F.flist(t["J"]))
+                "; ".join("(%s, %s, %s, %s)" % (ff(b0), F.flist(p0), ff(d_[2]), alist(acts_)) for (b0, p0, acts_), d_ in zip(dofacts, dofs)),
+                "; ".join("(%s, %s, (%s, %s, %s), (%s, %s, %s, %s), %s)" % (ff(t["k"]), F.flist(t["sp"]), ff(t["b0"]), F.flist(t["dp0"]), alist(t["acts"]),
+                                                                         ff(t["len"]), ff(t["vel"]), ff(t["lo"]), ff(t["hi"]), F.flist(t["J"]))
                           for t in tendons),
                 tup(gravity),
                 "; ".join("(%s, %s, [%s])" % (ff(m_), ff(g), "; ".join(tup(c) for c in jac)) for m_, g, jac in (bodies if gc_on else [])),
@@ -279,7 +331,7 @@ def oracle(ctx, case, nv, es, ed, gc_on, g1, rest, gravity, joints, dofs, tendon
                           theorem="C29_spring_is_gradient", signature={"site": "mj_springdamper", "class": "spring-law"})
             break
         if not close(P[v], exp_d[v]):
-            ctx.violation("impl_violation", dict(case, dof=v), expected="qfrc_damper = -v*(b + p0|v| + p1 v^2), plus tendon dampers = %r" % exp_d[v], observed=P[v],
+            ctx.violation("impl_violation", dict(case, dof=v), expected="qfrc_damper = -v*(b + p0|v| + p1 v^2) with b, p = own coefficients + sum over the actuators on the joint of coefficient*gear^2, plus tendon dampers = %r" % exp_d[v], observed=P[v],
                           theorem="C29_damping_dissipates", signature={"site": "mj_springdamper", "class": "damper-law"})
             break
     # 3. damping never adds energy (non-negative coefficients)
@@ -292,10 +344,12 @@ def oracle(ctx, case, nv, es, ed, gc_on, g1, rest, gravity, joints, dofs, tendon
     if rest:
         stats["rest_states"] += 1
         inside = all(t["lo"] <= t["len"] <= t["hi"] for t in tendons)
-        if inside and (any(S) or any(P)):
+        kmax = max([abs(j_[2]) for j_ in joints] + [abs(t["k"]) for t in tendons] + [1.0])
+        tiny = 1e-12 * kmax       # a stored unit quaternion is unit only to rounding: the ball-joint deflection is ~1e-16, not 0
+        if inside and (any(abs(x) > tiny for x in S) or any(P)):
             ctx.violation("impl_violation", case, expected="zero qfrc_spring and qfrc_damper at qpos = qpos_spring, qvel = 0 with every tendon inside its dead band", observed={"spring": S, "damper": P},
                           theorem="C29_rest_system", signature={"site": "mj_springdamper", "class": "rest"})
-        if inside and not has_gc and any(Q):
+        if inside and not has_gc and any(abs(x) > tiny for x in Q):
             ctx.violation("impl_violation", case, expected="zero qfrc_passive at rest", observed=Q, theorem="C29_rest_system", signature={"site": "mj_passive", "class": "rest"})
     # 5. gravity compensation
     exp_g = [0.0] * nv
